@@ -27,10 +27,11 @@ OPS = {
     "laplace_hyp": ("laplace", "hypersingular", ["laplace_single_layer"], "", False, None),
     "helmholtz_sl": ("helmholtz", "single_layer", ["helmholtz_single_layer"], "", True, 1.5),
     "helmholtz_dl": ("helmholtz", "double_layer", ["helmholtz_double_layer"], "y", True, 1.5),
-    "helmholtz_hyp": ("helmholtz", "hypersingular", ["helmholtz_single_layer"], "", True, 1.5),
+    "helmholtz_hyp": ("helmholtz", "hypersingular", ["helmholtz_single_layer"], "", True, 1.5 + 0.5j),
     "modhelm_sl": ("modified_helmholtz", "single_layer", ["modified_helmholtz_single_layer"], "", False, 1.5),
+    "modhelm_hyp": ("modified_helmholtz", "hypersingular", ["modified_helmholtz_single_layer"], "", False, 1.5),
     "maxwell_e": ("maxwell", "electric_field", ["helmholtz_single_layer"], "", True, 1.5),
-    "maxwell_m": ("maxwell", "magnetic_field", ["helmholtz_gradient"], "", True, 1.5),
+    "maxwell_m": ("maxwell", "magnetic_field", ["helmholtz_single_layer"], "", True, 1.5 + 0.5j),
 }
 
 
@@ -55,20 +56,37 @@ def build_op(b, opname, dom, ran, dual):
 
 
 def configs(thorough):
-    P1 = ("P", 1, {})
-    out = []
+    """Every assembler function has its own copy of the multiplier / scatter code, so every operator family is run with
+    (A) a trial space restricted to segments WITHOUT boundary dofs (zero multipliers, parked dofs) against a differently
+    restricted test space, and (B) the roles exchanged - on T7, which has adjacent (singular) and non-adjacent (regular)
+    element pairs between and inside the supports."""
     seg = lambda s, **kw: dict(segments=s, **kw)
-    # (mesh, op, trial spec, test spec, regular order, singular order)
+    out = []
+    scalar_ops = ["laplace_sl", "laplace_dl", "laplace_adl", "helmholtz_sl", "helmholtz_dl", "modhelm_sl"]
+    hyp_ops = ["laplace_hyp", "helmholtz_hyp", "modhelm_hyp"]
+    # octahedron, upper half = segment 0, lower half = segment 1: the restricted P1 space keeps the apex dof only and has
+    # zero multipliers (parked dofs) on the equator; opposite faces are non-adjacent (regular part), all others singular
+    M = "T6"
+    restricted = ("P", 1, seg([0]))
+    other = ("P", 1, seg([1], include_boundary_dofs=True))
+    for k, op in enumerate(scalar_ops):
+        trial, test = (restricted, other) if k % 2 == 0 else (other, restricted)
+        if op.endswith("_sl") and k % 3 == 0:
+            test = ("DP", 1, seg([1]))
+        out.append((M, op, trial, test, 1, 1))
+    for op in hyp_ops:
+        out.append((M, op, restricted, other, 1, 1))
+        out.append((M, op, other, restricted, 1, 1))
+    rwg_r = ("RWG", 0, seg([0]))
+    snc_o = ("SNC", 0, seg([1], include_boundary_dofs=True))
+    for op in ("maxwell_e", "maxwell_m"):
+        out.append((M, op, rwg_r, snc_o, 1, 1))
+        out.append((M, op, ("RWG", 0, seg([1], include_boundary_dofs=True)), ("SNC", 0, seg([0])), 1, 1))
     out += [
-        ("T7", "laplace_sl", ("P", 1, {}), ("P", 1, {}), 2, 1),
         ("T7", "laplace_dl", ("P", 1, seg([0, 2], include_boundary_dofs=True)), ("DP", 0, {}), 2, 1),
         ("T7", "laplace_adl", ("DP", 0, seg([1])), ("P", 1, seg([1], include_boundary_dofs=True, truncate_at_segment_edge=True)), 2, 1),
-        ("T7", "laplace_sl", ("DP", 1, seg([0])), ("P", 1, seg([0, 1])), 1, 1),
         ("T9", "laplace_sl", ("P", 1, seg([1], include_boundary_dofs=True, truncate_at_segment_edge=False)), ("P", 1, seg([0, 1], include_boundary_dofs=False)), 1, 1),
-        ("T4", "laplace_hyp", ("P", 1, {}), ("P", 1, {}), 1, 1),
-        ("T7", "helmholtz_sl", ("P", 1, {}), ("DP", 1, seg([2])), 1, 1),
         ("T4", "maxwell_e", ("RWG", 0, {}), ("SNC", 0, {}), 1, 1),
-        ("T9", "maxwell_e", ("RWG", 0, seg([1], include_boundary_dofs=True)), ("RWG", 0, {}), 1, 1),
     ]
     if thorough:
         out += [
@@ -78,6 +96,7 @@ def configs(thorough):
             ("T5", "maxwell_e", ("RWG", 0, {"include_boundary_dofs": True}), ("SNC", 0, {"include_boundary_dofs": True}), 2, 1),
             ("T7", "helmholtz_dl", ("P", 1, dict(support_elements=np.array([0, 1, 4], dtype="uint32"))), ("DP", 0, {}), 2, 1),
             ("T9", "laplace_hyp", ("P", 1, seg([1], include_boundary_dofs=True)), ("P", 1, seg([0, 1], include_boundary_dofs=True, truncate_at_segment_edge=True)), 2, 2),
+            ("T7", "maxwell_m", ("RWG", 0, seg([2], include_boundary_dofs=True)), ("SNC", 0, {"include_boundary_dofs": True}), 2, 1),
         ]
     return out
 
@@ -105,8 +124,6 @@ def run(ctx):
         g = W.symgrid(mesh, tag="g%d" % ci)
         W.set_orders(oreg, osing)
         uf = W.UFKernel("K%d" % ci, normals=normals, complex_=cplx)
-        if opname == "maxwell_m":
-            continue
         with W.patched(*W.install_uf(knames, uf)):
             dom = make_space(b, g, trial)
             dual = make_space(b, g, test)
@@ -125,13 +142,11 @@ def run(ctx):
             n += 1
         if first:
             first = False
-            # reachability + negative twin: T' A T with a doubled entry of A_loc must differ somewhere
-            Af2 = Af.copy()
-            Af2[0, 0] = Af2[0, 0] * 2
-            spec2 = (Tt.T @ Af2 @ Td).view(SA)
+            # reachability + negative twin: T' (2 A_loc) T must differ somewhere
+            spec2 = (Tt.T @ (Af * 2) @ Td).view(SA)
             ctx.twin("twin/doubled-entry", z3.And(*[f for _, f in W.entries_eq(A, spec2)]), [], abs_cons=False)
         ctx.sample({"config": params, "matrix_shape": list(np.shape(A)), "entries": n, "encode_s": round(time.time() - t0, 2)})
-        if ctx.thorough or ci in (1, 6, 7):
+        if ctx.thorough or ci in (1, 7, 12):
             ctx.concrete("congruence/%d" % ci, "congruence", params)
         ctx.log("cfg%d %s %s %s x %s: %d entries, %.1fs" % (ci, mesh, opname, trial[0], test[0], n, time.time() - t0))
 
